@@ -5,9 +5,12 @@ real executions feed them, which TLA+ model-checking slices explore the design."
 FAMILIES = {
     "mixA":  {"quick": 250, "thorough": 4000},   # real client <-> real server, cooperative programs
     "mixAd": {"quick": 250, "thorough": 4000},   # ... with resets, drops, early handle drops
+    "bpReset": {"quick": 150, "thorough": 3000}, # back-pressure: a frame partly written, then one stream reset/dropped/ended
+    "flowBs": {"quick": 200, "thorough": 4000},  # scripted client exhausts the real server's receive windows exactly
+    "flowBc": {"quick": 200, "thorough": 4000},  # scripted server drives the real client's send windows (0, negative, up)
 }
 
-WIRE_AB = ["mixA", "mixAd"]
+WIRE_AB = ["mixA", "mixAd", "bpReset", "flowBs", "flowBc"]
 
 PLAN = {
     "C01": {"rules": ["C01."], "families": WIRE_AB, "slices": [], "level": "exploration",
@@ -20,7 +23,7 @@ PLAN = {
             "must_hit": ["C04.stream_kind", "C04.id_order", "C04.after_es", "C04.data_state", "C04.contiguous"]},
     "C05": {"rules": ["C05."], "families": WIRE_AB, "slices": [], "level": "exploration",
             "must_hit": ["C05.send_limit"]},
-    "C06": {"rules": ["C06."], "families": ["mixA"], "slices": [], "level": "exploration", "must_hit": ["C06.progress"]},
+    "C06": {"rules": ["C06."], "families": ["mixA", "mixAd", "bpReset"], "slices": [], "level": "exploration", "must_hit": ["C06.progress"]},
     "C07": {"rules": ["C07."], "families": WIRE_AB, "slices": [], "level": "exploration", "must_hit": ["C07.resolved"]},
     "C08": {"rules": ["C08."], "families": WIRE_AB, "slices": [], "level": "exploration", "must_hit": []},
     "C14": {"rules": ["C14.", "C12.out_size"], "families": WIRE_AB, "slices": [], "level": "exploration",
